@@ -397,6 +397,19 @@ fn unit() -> Unit {
             if got.len() != 1 {
                 return Err(format!("untouched subscription delivered {} messages", got.len()));
             }
+            // whatever an ACCEPTED odd request created must itself be usable: a subscription created with an odd (but
+            // accepted) ack deadline serves a publish / pull / ack / delete cycle, and so does its topic
+            let fresh = "projects/p/subscriptions/fresh";
+            if a.get_sub(fresh).await.is_ok() {
+                a.publish(T0, vec![(b"f".to_vec(), vec![])]).await.map_err(|c| format!("publish to the topic of the subscription the request created: {:?}", c))?;
+                let got = a.pull(fresh, 10, true).await.map_err(|c| format!("pull on the subscription the request created: {:?}", c))?;
+                if got.is_empty() {
+                    return Err("the subscription the request created did not get a message published to its topic".to_string());
+                }
+                a.ack(fresh, got.iter().map(|m| m.ack_id.clone()).collect()).await.map_err(|c| format!("ack on the subscription the request created: {:?}", c))?;
+                a.delete_sub(fresh).await.map_err(|c| format!("delete of the subscription the request created: {:?}", c))?;
+                a.publish(T0, vec![(b"g".to_vec(), vec![])]).await.map_err(|c| format!("publish after deleting it: {:?}", c))?;
+            }
             Ok::<(), String>(())
         })
         .await);
